@@ -232,6 +232,28 @@ fn run_case(input: &Sx) -> String {
                 list(outs)
             }).unwrap_or("panic".into())
         }
+        "chgo" => {
+            // ChangeOf over the best objective value (the documented use of DeltaEqChecker)
+            use mahf::lens::common::BestObjectiveValueLens;
+            let so = |x: &Sx| SingleObjective::try_from(x.float().unwrap()).unwrap();
+            let checker = match a[0].head() {
+                Some(("de", th)) => DeltaEqChecker::new(so(&th[0])),
+                _ => PartialEqChecker::new::<SingleObjective>(),
+            };
+            let (_, vals) = a[1].head().unwrap();
+            let c = ChangeOf::new::<P>(checker, BestObjectiveValueLens::<P>::new());
+            catch(|| {
+                c.init(&problem, &mut state).unwrap();
+                let mut outs = vec![];
+                for v in vals {
+                    let mut best = BestIndividual::<P>::new();
+                    best.update(&Individual::new(7u64, so(v)));
+                    state.insert(best);
+                    outs.push(res(c.evaluate(&problem, &mut state)));
+                }
+                list(outs)
+            }).unwrap_or("panic".into())
+        }
         "form" => {
             let (_, envs) = a[1].head().unwrap();
             let env: Vec<u8> = envs.iter().map(|o| match o.atom().unwrap() { "t" => 1, "f" => 0, _ => 2 }).collect();
@@ -436,6 +458,32 @@ fn main() {
         emit(site_of(&c), format!("(chg {c} {})", tagged("vals", vals)));
     }
 
+    //    ... and over objective values (f64 inside SingleObjective), incl. +inf
+    let ovals = [0.0f64, 0.05, 0.1, 0.2, 0.25, 1.0, f64::INFINITY, -1.0];
+    for th in [None, Some(0.0f64), Some(0.1), Some(0.15), Some(1.0), Some(f64::INFINITY)] {
+        let c = th.map(|t| format!("(de {})", fx(t))).unwrap_or("pe".into());
+        let site = if th.is_some() { "ChangeOf::delta_eq_objective" } else { "ChangeOf::partial_eq_objective" };
+        // all histories of length <= 3 over the 8 values, random longer ones
+        for len in 0..=3usize {
+            let mut idx = vec![0usize; len];
+            loop {
+                emit(site, format!("(chgo {c} {})", tagged("vals", idx.iter().map(|&i| fx(ovals[i])))));
+                let mut k = 0;
+                while k < len { idx[k] += 1; if idx[k] < ovals.len() { break; } idx[k] = 0; k += 1; }
+                if k == len { break; }
+            }
+        }
+        for _ in 0..(if t { 3_000 } else { 200 }) {
+            let len = r.below(20);
+            let mut cur = *r.pick(&ovals);
+            let vals: Vec<String> = (0..len).map(|_| {
+                match r.below(4) { 0 => {}, 1 => cur = *r.pick(&ovals), 2 => cur = cur + r.unit() * 0.2, _ => cur = (cur - r.unit() * 0.2).max(-5.0) }
+                fx(cur)
+            }).collect();
+            emit(site, format!("(chgo {c} {})", tagged("vals", vals)));
+        }
+    }
+
     // 5. Boolean formulas over scripted operands
     let outcomes = ["t", "f", "e"];
     let site_form = |f: &str| if f.starts_with("(and") { "And::evaluate" } else if f.starts_with("(or") { "Or::evaluate" } else if f.starts_with("(not") { "Not::evaluate" } else { "ScriptCond::evaluate" };
@@ -471,7 +519,7 @@ fn main() {
     //    frequency with the real ChaCha12 generator: 10^5 draws, 5 sigma
     let fps = [0.5f64, 0.1, 0.9, 0.01, 0.999, 0.0, 1.0];
     for (i, &p) in fps.iter().enumerate() {
-        emit("RandomChance::frequency", format!("(freq {} {} 100000)", xf(p), a.seed * 1000 + i as u64));
+        emit("RandomChance::frequency", format!("(freq {} {} {})", xf(p), a.seed * 1000 + i as u64, if t { 1_000_000 } else { 100_000 }));
     }
     for i in 0..(if t { 40 } else { 3 }) {
         let p = r.unit();
